@@ -4,11 +4,13 @@
 //
 //   obj (D0 D1 …) (A0 A1 …)
 //
-//   D    ::= (PARENT (ATTR*) EQ EIT SER)         definition i is named T<i>; PARENT ::= - | <index of an earlier definition>
-//   ATTR ::= (NAME TY KIND DFLT) | (NAME TY KIND DFLT o)
+//   D    ::= (PARENT (ATTR*) EQ EIT SER [(k (NAME VAL)*)])
+//                                                definition i is named T<i>; PARENT ::= - | <index of an earlier definition>;
+//                                                the optional last element is `constants => {NAME => VAL, …}`
+//   ATTR ::= (NAME TY KIND DFLT [o] [f|nf])
 //                                                NAME: plain member name (atom); KIND ::= n | c | d | g | r
 //                                                (normal, constant, derived, given_or_derived, reference); DFLT ::= - | VAL;
-//                                                a trailing `o` is `override => true`
+//                                                `o` = `override => true`, `f` / `nf` = `final => true` / `false`
 //   TY   ::= int | str | bool | any | (opt TY)
 //   VAL  ::= (i N) | (s xHEX) | (b t|f) | u
 //   EQ   ::= - | (s NAME) | (l NAME*)            `equality` absent / given as a string / given as an array
@@ -134,8 +136,10 @@ func valOfPx(v px.Value) string {
 		return val{k: "b", b: v.Bool()}.String()
 	case *types.Hash:
 		// a hash where a value is expected: the argument of a named construction that fell through to the positional signature
+		// Hash equality does not depend on the order of the entries: printed (and identified by the model) sorted by key
 		xs := []string{}
 		v.EachPair(func(k, e px.Value) { xs = append(xs, " ("+k.String()+" "+valOfPx(e)+")") })
+		sort.Strings(xs)
 		return "(h" + strings.Join(xs, "") + ")"
 	}
 	if v == nil {
@@ -236,7 +240,11 @@ type attr struct {
 	kind     string // n c d g r
 	dflt     *val
 	override bool
+	final    string // "" (absent) | "f" (final => true) | "nf" (final => false)
 }
+
+// isFinal: declared, and implied for a constant
+func (a *attr) isFinal() bool { return a.kind == "c" || a.final == "f" }
 
 type def struct {
 	parent int // -1 = none
@@ -246,6 +254,7 @@ type def struct {
 	eit    string // - t f
 	ser    []string
 	hasSer bool
+	consts []attr // `constants => {name => value}`: kind c, dflt = the value, ty = the type inferred from it
 }
 
 type action struct {
@@ -300,10 +309,37 @@ func namesOf(es []sx.Sexp) []string {
 }
 
 func defOf(e sx.Sexp) def {
-	if !e.IsList || len(e.List) != 5 {
+	if !e.IsList || (len(e.List) != 5 && !(len(e.List) == 6 && e.List[5].Tag() == "k")) {
 		panic(fmt.Errorf("bad definition %s", e))
 	}
 	d := def{parent: -1}
+	if len(e.List) == 6 {
+		for _, kv := range e.List[5].Args() {
+			if !kv.IsList || len(kv.List) != 2 {
+				panic(fmt.Errorf("bad constant %s", kv))
+			}
+			v := valOf(kv.List[1])
+			var t *ty
+			switch v.k {
+			case "i":
+				t = &ty{k: "int"}
+			case "s":
+				t = &ty{k: "str"}
+			case "b":
+				t = &ty{k: "bool"}
+			default:
+				panic(fmt.Errorf("constant %s: the inferred type Undef is not in the alphabet", kv))
+			}
+			d.consts = append(d.consts, attr{name: nameOf(kv.List[0]), ty: t, kind: "c", dflt: &v})
+		}
+		ns := []string{}
+		for _, k := range d.consts {
+			ns = append(ns, k.name)
+		}
+		if repeats(ns) {
+			panic(fmt.Errorf("constants with a repeated key %s", e))
+		}
+	}
 	if p := e.List[0]; !(p.Atom == "-" && !p.IsList) {
 		d.parent = natOf(p)
 	}
@@ -311,10 +347,22 @@ func defOf(e sx.Sexp) def {
 		panic(fmt.Errorf("bad attribute list %s", e.List[1]))
 	}
 	for _, a := range e.List[1].List {
-		if !a.IsList || (len(a.List) != 4 && !(len(a.List) == 5 && !a.List[4].IsList && a.List[4].Atom == "o")) {
+		if !a.IsList || len(a.List) < 4 || len(a.List) > 6 {
 			panic(fmt.Errorf("bad attribute %s", a))
 		}
-		at := attr{name: nameOf(a.List[0]), ty: tyOf(a.List[1]), kind: atomOf(a.List[2]), override: len(a.List) == 5}
+		at := attr{name: nameOf(a.List[0]), ty: tyOf(a.List[1]), kind: atomOf(a.List[2])}
+		flags := a.List[4:]
+		if len(flags) > 0 && atomOf(flags[0]) == "o" {
+			at.override = true
+			flags = flags[1:]
+		}
+		if len(flags) > 0 && (atomOf(flags[0]) == "f" || atomOf(flags[0]) == "nf") {
+			at.final = atomOf(flags[0])
+			flags = flags[1:]
+		}
+		if len(flags) > 0 {
+			panic(fmt.Errorf("bad attribute flags %s", a))
+		}
 		if strings.Index("ncdgr", at.kind) < 0 || len(at.kind) != 1 {
 			panic(fmt.Errorf("bad kind %s", at.kind))
 		}
@@ -351,11 +399,6 @@ func defOf(e sx.Sexp) def {
 		}
 		d.hasSer = true
 		d.ser = namesOf(s.Args())
-		if repeats(d.ser) {
-			// outside the universe: a serialization list with a repeated name is accepted by InitFromHash and the
-			// named constructor then indexes out of range (name→position has fewer entries than the attribute list)
-			panic(fmt.Errorf("serialization with a repeated name %s", s))
-		}
 	} else if s.Atom != "-" {
 		panic(fmt.Errorf("bad serialization %s", s))
 	}
@@ -483,11 +526,19 @@ func mkSpec(defs []def) *spec {
 			}
 			own[a.name] = true
 		}
-		for _, a := range d.attrs {
+		decls := append([]attr{}, d.attrs...)
+		for _, k := range d.consts {
+			if own[k.name] {
+				wf = false // both a constant and an attribute
+			}
+			_, k.override = inheritedIdx[k.name] // set by InitFromHash when the parent has a member of that name
+			decls = append(decls, k)
+		}
+		for _, a := range decls {
 			sa := sattr{attr: a, owner: i, ety: a.ty}
 			switch a.kind {
 			case "c":
-				if a.dflt == nil {
+				if a.dflt == nil || a.final == "nf" { // a constant is final
 					wf = false
 				}
 			case "d", "g":
@@ -507,10 +558,10 @@ func mkSpec(defs []def) *spec {
 				sa.hasDflt, sa.dv = true, val{k: "u"}
 			}
 			if k, ok := inheritedIdx[a.name]; ok {
-				// an overriding attribute takes the place of the one it overrides: it must say `override => true`, a constant
-				// (final) is overridden by a constant only, and the type may only narrow
+				// an overriding attribute takes the place of the one it overrides: it must say `override => true`, a final
+				// member is overridden only constant by constant, and the type may only narrow
 				pa := all[k]
-				if !a.override || (pa.kind == "c" && a.kind != "c") || !asgSpec(pa.ety, sa.ety) {
+				if !a.override || (pa.isFinal() && !(pa.kind == "c" && a.kind == "c")) || !asgSpec(pa.ety, sa.ety) {
 					wf = false
 				}
 				all[k] = sa
@@ -634,13 +685,16 @@ func (d *def) text(name, parent string) string {
 	if len(d.attrs) > 0 {
 		var as []string
 		for _, a := range d.attrs {
-			if a.kind == "n" && a.dflt == nil && !a.override {
+			if a.kind == "n" && a.dflt == nil && !a.override && a.final == "" {
 				as = append(as, quote(a.name)+" => "+a.ty.text())
 				continue
 			}
 			fs := []string{"type => " + a.ty.text()}
 			if a.override {
 				fs = append(fs, "override => true")
+			}
+			if a.final != "" {
+				fs = append(fs, "final => "+strconv.FormatBool(a.final == "f"))
 			}
 			if k := kindName(a.kind); k != "" {
 				fs = append(fs, "kind => "+k)
@@ -651,6 +705,13 @@ func (d *def) text(name, parent string) string {
 			as = append(as, quote(a.name)+" => {"+strings.Join(fs, ", ")+"}")
 		}
 		parts = append(parts, "attributes => {"+strings.Join(as, ", ")+"}")
+	}
+	if len(d.consts) > 0 {
+		var ks []string
+		for _, k := range d.consts {
+			ks = append(ks, quote(k.name)+" => "+k.dflt.text())
+		}
+		parts = append(parts, "constants => {"+strings.Join(ks, ", ")+"}")
 	}
 	qs := func(ns []string) string {
 		out := make([]string, len(ns))
@@ -714,13 +775,16 @@ func (d *def) initHash(name string, parent px.Type) *types.Hash {
 	if len(d.attrs) > 0 {
 		var as []*types.HashEntry
 		for _, a := range d.attrs {
-			if a.kind == "n" && a.dflt == nil && !a.override {
+			if a.kind == "n" && a.dflt == nil && !a.override && a.final == "" {
 				as = append(as, types.WrapHashEntry2(a.name, a.ty.px()))
 				continue
 			}
 			fs := []*types.HashEntry{types.WrapHashEntry2("type", a.ty.px())}
 			if a.override {
 				fs = append(fs, types.WrapHashEntry2("override", types.WrapBoolean(true)))
+			}
+			if a.final != "" {
+				fs = append(fs, types.WrapHashEntry2("final", types.WrapBoolean(a.final == "f")))
 			}
 			if k := kindName(a.kind); k != "" {
 				fs = append(fs, types.WrapHashEntry2("kind", types.WrapString(k)))
@@ -731,6 +795,13 @@ func (d *def) initHash(name string, parent px.Type) *types.Hash {
 			as = append(as, types.WrapHashEntry2(a.name, types.WrapHash(fs)))
 		}
 		es = append(es, types.WrapHashEntry2("attributes", types.WrapHash(as)))
+	}
+	if len(d.consts) > 0 {
+		var ks []*types.HashEntry
+		for _, k := range d.consts {
+			ks = append(ks, types.WrapHashEntry2(k.name, k.dflt.px()))
+		}
+		es = append(es, types.WrapHashEntry2("constants", types.WrapHash(ks)))
 	}
 	switch d.eqKind {
 	case "s":
@@ -752,6 +823,9 @@ func (d *def) initHash(name string, parent px.Type) *types.Hash {
 
 // ---- running against pcore ----------------------------------------------------------------------------------------
 
+// issues raised during the current op whose message has an unbound argument (ops of one worker run one after the other)
+var msgProblems []string
+
 func classify(e interface{}) (cls string) {
 	switch e := e.(type) {
 	case issue.Reported:
@@ -761,8 +835,12 @@ func classify(e interface{}) (cls string) {
 				cls = "fault"
 			}
 		}()
-		if strings.Contains(e.Error(), "runtime error:") {
+		msg := e.Error()
+		if strings.Contains(msg, "runtime error:") {
 			return "fault"
+		}
+		if strings.Contains(msg, "(MISSING)") || strings.Contains(msg, "%!") {
+			msgProblems = append(msgProblems, string(e.Code())+": "+msg)
 		}
 		return "reported " + strings.TrimPrefix(string(e.Code()), "PCORE_")
 	case error:
@@ -1203,12 +1281,15 @@ func (r *run) predicate(c px.Context, s *spec, acts []action, hashes []*types.Ha
 				if got != attrsEq {
 					add("equality-wrong", "objects %d and %d of T%d: Equals = %v, equality attributes %v equal = %v", k1, k2, t1, got, s.eqa[t1], attrsEq)
 				}
-			} else if got {
-				if s.eit[t1] || !attrsEq {
+			} else {
+				// different types: equal only when both say equality_include_type => false, both compare the same
+				// attributes (by name), and those are equal
+				want := !s.eit[t1] && !s.eit[t2] && sameNames(s.eqa[t1], s.eqa[t2]) && attrsEq
+				if got && !want {
 					add("equality-wrong", "objects %d (T%d) and %d (T%d) of different types are equal", k1, t1, k2, t2)
+				} else if !got && want {
+					add("equality-include-type", "objects %d (T%d) and %d (T%d): equality_include_type => false on both types, same equality attributes %v with equal values, yet not equal", k1, t1, k2, t2, s.eqa[t1])
 				}
-			} else if !s.eit[t1] && !s.eit[t2] && attrsEq && sameShape(s, t1, t2) {
-				add("equality-include-type", "objects %d (T%d) and %d (T%d): equality_include_type => false, identically shaped types, equal equality attributes, yet not equal", k1, t1, k2, t2)
 			}
 		}
 	}
@@ -1244,6 +1325,29 @@ func admittedBySchema(h *types.Hash) bool {
 	return ok
 }
 
+// sameNames: the same set of names
+func sameNames(a, b []string) bool {
+	in := func(n string, l []string) bool {
+		for _, x := range l {
+			if x == n {
+				return true
+			}
+		}
+		return false
+	}
+	for _, n := range a {
+		if !in(n, b) {
+			return false
+		}
+	}
+	for _, n := range b {
+		if !in(n, a) {
+			return false
+		}
+	}
+	return true
+}
+
 // sameShape: the two types have the same attributes (names, types, kinds, defaults, order) and equality attributes
 func sameShape(s *spec, t1, t2 int) bool {
 	if len(s.all[t1]) != len(s.all[t2]) || strings.Join(s.eqa[t1], ",") != strings.Join(s.eqa[t2], ",") {
@@ -1251,7 +1355,7 @@ func sameShape(s *spec, t1, t2 int) bool {
 	}
 	for i := range s.all[t1] {
 		a, b := s.all[t1][i], s.all[t2][i]
-		if a.name != b.name || a.kind != b.kind || a.ty.sexp().String() != b.ty.sexp().String() || a.hasDflt != b.hasDflt || a.dv.String() != b.dv.String() || a.override != b.override {
+		if a.name != b.name || a.kind != b.kind || a.ty.sexp().String() != b.ty.sexp().String() || a.hasDflt != b.hasDflt || a.dv.String() != b.dv.String() || a.override != b.override || a.final != b.final {
 			return false
 		}
 	}
@@ -1261,6 +1365,12 @@ func sameShape(s *spec, t1, t2 int) bool {
 // ---- exec -------------------------------------------------------------------------------------------------------
 
 func exec(c px.Context, op string, args []sx.Sexp) core.Result {
+	if op == "tparam" {
+		return execTParam(c, args)
+	}
+	if op == "msg" {
+		return execMsg(c, args)
+	}
 	if op != "obj" || len(args) != 2 || !args[0].IsList || !args[1].IsList {
 		return core.Result{Out: "bad-op", Pred: "FAIL harness-bad-op " + op}
 	}
@@ -1281,6 +1391,7 @@ func exec(c px.Context, op string, args []sx.Sexp) core.Result {
 		return core.Result{Out: "bad-op", Pred: "n/a"}
 	}
 	n := atomic.AddInt64(&opCounter, 1)
+	msgProblems = nil
 	var rt, rh *run
 	var fails []failure
 	// the two renderings, each in its own forked context (fresh loader)
@@ -1307,6 +1418,9 @@ func exec(c px.Context, op string, args []sx.Sexp) core.Result {
 	if h := rh.line(); h != out {
 		fails = append(fails, failure{"renderings-differ", "as text: " + out + " | as init-hash: " + h})
 	}
+	if len(msgProblems) > 0 {
+		fails = append(fails, failure{"message-args", "an issue renders with an unbound argument: " + msgProblems[0]})
+	}
 	created := 0
 	for _, o := range rt.objs {
 		if o != nil {
@@ -1326,7 +1440,7 @@ func exec(c px.Context, op string, args []sx.Sexp) core.Result {
 // one class is reported per op: the most specific first
 func classRank(c string) int {
 	for i, k := range []string{"fault", "schema-admitted-rejected", "renderings-differ", "new-rejected", "get-wrong", "get-constant", "pos-named-differ",
-		"inithash-roundtrip", "equality-wrong", "equality-include-type", "subtype-not-instance", "ancestor-instance-of-sub", "unrelated-instance"} {
+		"inithash-roundtrip", "equality-wrong", "equality-include-type", "subtype-not-instance", "ancestor-instance-of-sub", "unrelated-instance", "message-args"} {
 		if c == k {
 			return i
 		}
